@@ -96,7 +96,7 @@ def gen_pools(rng, types, profile):
         elif r < 0.5:
             p["reqs"].append({"key": "team", "op": "Exists", "vals": [], "n": 0, "min": 0})
         if rng.random() < 0.25:
-            p["taints"].append(dict(TAINT))
+            p["taints"].append(dict(TAINT, effect=rng.choice(["NoSchedule", "NoSchedule", "NoExecute"])))
         if rng.random() < 0.12:
             p["taints"].append(dict(PREFER))
         if rng.random() < 0.2:
@@ -277,7 +277,7 @@ def node_archetypes(rng, types):
     def pref_two(p):
         p["pref"] = [{"weight": 10, "exprs": [expr("zone", "In", ["c"])]}, {"weight": 20, "exprs": [expr("it", "In", [rng.choice(tn)])]}]
     def it_in(p): p["sel"]["it"] = rng.choice(tn)
-    def tolerate(p): p["tol"] = [dict(TOL_TAINT)]
+    def tolerate(p): p["tol"] = [dict(TOL_TAINT, effect=rng.choice(["NoSchedule", "NoSchedule", ""]))]
     def tolerate_all(p): p["tol"] = [dict(TOL_ALL)]
     def port80(p): p["ports"] = [{"port": 80, "ip": "", "proto": "TCP"}]
     def port80ip(p): p["ports"] = [{"port": 80, "ip": rng.choice(["10.0.0.1", "10.0.0.2"]), "proto": "TCP"}]
